@@ -1085,7 +1085,7 @@ def run(ctx):
         if tier == "quick":
             ns, no, na, nl, ml, mo = 1500, 1500, 200, 1500, 40, 60
         else:
-            ns, no, na, nl, ml, mo = 30000, 30000, 3000, 30000, 120, 200
+            ns, no, na, nl, ml, mo = 20000, 20000, 2000, 20000, 120, 200
         items = gen_sort_items(rng, ns, ml) + gen_oset_items(rng, no, min(ml, 30)) + gen_list_items(rng, nl, min(ml, 30))
         rng.shuffle(items)
         for i, ch in enumerate(chunks(items, 50)):
